@@ -296,6 +296,7 @@ def merge_eval(ex, thunk, allow_events=False):
         sub.inputs = outer.inputs
         sub.trace = list(outer.trace)
         sub.in_merge = True
+        sub.outer_addrs = set(outer.heap.keys())
         sub.axioms = outer.axioms
         sub.obligations_sink = outer.obligations_sink
         sub.tags = list(outer.tags)
@@ -303,7 +304,7 @@ def merge_eval(ex, thunk, allow_events=False):
         ex.run = sub
         try:
             try:
-                v = thunk()
+                v = detach(ex, thunk())
                 results.append((sub.pc[base_pc_len:], 'ret', v))
             except RaiseEx as r:
                 # branches are not pruned eagerly in merged evaluation: check this raising arm now
@@ -797,8 +798,7 @@ def seq_fold(ex, fn, init, xs):
     x = run.fresh(s.kind.elem, 'fx')
     res = merge_eval(ex, lambda: ex.call(fn, [a, x], {}))
     val, rc = merged_value(ex, res, acc_kind)
-    if rc is not None:
-        raise OutOfSubset('fold step may raise')
+    # a step that raises makes the fold undefined there: the defining equation is only given where it does not
     key = comb_key(ex, [a, x], val)
     it = P.lift(ex, init, acc_kind)
     import hashlib
@@ -810,7 +810,10 @@ def seq_fold(ex, fn, init, xs):
         run.axiom(z3.Implies(z3.Length(st) == 0, f(st) == it))
         for (pre, e) in snoc_decompositions(st, run):
             stepped = z3.substitute(val.t, (a.t, f(pre)), (x.t, e))
-            run.axiom(f(st) == stepped)
+            if rc is not None:
+                run.axiom(z3.Implies(z3.Not(z3.substitute(rc, (a.t, f(pre)), (x.t, e))), f(st) == stepped))
+            else:
+                run.axiom(f(st) == stepped)
             run.axiom(z3.Implies(z3.Length(pre) == 0, f(pre) == it))
     inst(s.t)
     if z3.is_app(s.t) and s.t.decl().kind() == z3.Z3_OP_SEQ_EMPTY:
@@ -859,3 +862,22 @@ def name_formula(ex, formula):
         else:
             defs[key] = (app == formula)
     return app
+
+
+def detach(ex, v):
+    """a value computed in a sub-evaluation must not refer to that sub-evaluation's heap: lists / dicts become
+    symbolic sequence / map values"""
+    if isinstance(v, Ref) and v.addr not in getattr(ex.run, 'outer_addrs', ()):
+        cell = ex.run.heap.get(v.addr)
+        if isinstance(cell, HList):
+            if cell.sym is not None:
+                return cell.sym
+            if cell.items:
+                k = K.Seq(P.kind_of(ex, cell.items[0]))
+                return Sym(k, P.seq_of(ex, [P.lift(ex, x, k.elem) for x in cell.items], k))
+            return v
+        if isinstance(cell, HDict) and cell.sym is not None:
+            return cell.sym
+    if isinstance(v, tuple):
+        return tuple(detach(ex, x) for x in v)
+    return v
